@@ -178,7 +178,17 @@ func (p *Prog) errorUses(fn *ssa.Function, ev ssa.Value) errUse {
 					} else {
 						u.PassedOn = true
 					}
-				case *ssa.FieldAddr, *ssa.IndexAddr:
+				case *ssa.FieldAddr:
+					// a field of a struct that lives in this function only (the accumulator `var m matcher`
+					// once its methods are in place) is a local cell like any other
+					if al, ok := a.X.(*ssa.Alloc); ok && al.Parent() == fn && structStaysLocal(al) {
+						for _, ld := range reachingFieldLoads(x, al, a.Field) {
+							walk(ld)
+						}
+					} else {
+						u.PassedOn = true
+					}
+				case *ssa.IndexAddr:
 					u.PassedOn = true
 				}
 			case ssa.CallInstruction:
@@ -1486,6 +1496,83 @@ func reachingLoads(st *ssa.Store, cell *ssa.Alloc) []ssa.Value {
 			}
 			if killed {
 				break
+			}
+		}
+		if killed {
+			continue
+		}
+		for _, s := range it.b.Succs {
+			if !seen[s] {
+				seen[s] = true
+				work = append(work, item{s, 0})
+			}
+		}
+	}
+	return out
+}
+
+// structStaysLocal: the only thing done with the struct cell is taking the
+// address of its fields, and those addresses are only loaded from and stored to.
+func structStaysLocal(al *ssa.Alloc) bool {
+	refs := al.Referrers()
+	if refs == nil {
+		return false
+	}
+	for _, r := range *refs {
+		switch x := r.(type) {
+		case *ssa.DebugRef:
+		case *ssa.FieldAddr:
+			if fr := x.Referrers(); fr != nil {
+				for _, u := range *fr {
+					switch y := u.(type) {
+					case *ssa.DebugRef:
+					case *ssa.UnOp:
+						if y.Op != token.MUL {
+							return false
+						}
+					case *ssa.Store:
+						if y.Addr != ssa.Value(x) {
+							return false
+						}
+					default:
+						return false
+					}
+				}
+			}
+		default:
+			return false
+		}
+	}
+	return true
+}
+
+// reachingFieldLoads is reachingLoads for one field of a local struct.
+func reachingFieldLoads(st *ssa.Store, cell *ssa.Alloc, field int) []ssa.Value {
+	isLoc := func(v ssa.Value) bool {
+		fa, ok := v.(*ssa.FieldAddr)
+		return ok && fa.X == ssa.Value(cell) && fa.Field == field
+	}
+	var out []ssa.Value
+	type item struct {
+		b *ssa.BasicBlock
+		i int
+	}
+	seen := map[*ssa.BasicBlock]bool{}
+	work := []item{{st.Block(), instrIndex(st) + 1}}
+	for len(work) > 0 {
+		it := work[len(work)-1]
+		work = work[:len(work)-1]
+		killed := false
+		for i := it.i; i < len(it.b.Instrs) && !killed; i++ {
+			switch in := it.b.Instrs[i].(type) {
+			case *ssa.UnOp:
+				if in.Op == token.MUL && isLoc(in.X) {
+					out = append(out, in)
+				}
+			case *ssa.Store:
+				if isLoc(in.Addr) {
+					killed = true
+				}
 			}
 		}
 		if killed {
